@@ -407,6 +407,8 @@ def ispec (P : Archive.Params) (m : Store.Map) : IOp → Store.Map × IOut
     | none => (m, .notFound)
   | .has key => (m, .bool (m (key9 key)).isSome)
   | .reopen => (m, .ok)
+  | .openOnly => (m, .ok)
+  | .init => (m, .ok)
 
 def ispecRun (P : Archive.Params) : Store.Map → List IOp → Store.Map × List IOut
   | m, [] => (m, [])
@@ -423,8 +425,21 @@ def ibudget : List IOp → Nat
   | [] => 0
   | op :: ops => icost op + ibudget ops
 
+/-- the operation stays inside one session of one instance (no drop + open, no `initialize`). -/
 def notReopen : IOp → Prop
   | .reopen => False
+  | .openOnly => False
+  | .init => False
+  | _ => True
+
+/-- the written content's index key is not the all-zero nine bytes (as `nz` for the container). -/
+def inz (P : Archive.Params) : IOp → Prop
+  | .write d _ => keyOf P d ≠ 0
+  | _ => True
+
+/-- not "drop + `Installation::open` WITHOUT `initialize()`". -/
+def notOpenOnly : IOp → Prop
+  | .openOnly => False
   | _ => True
 
 /-- no two different contents of `S` share the nine leading bytes of their key. -/
@@ -465,7 +480,9 @@ theorem istep_refines (P : Archive.Params) (cfg : Lsm.Cfg) (hcap : 1 ≤ cfg.cap
     ∃ A', IInv P S (istep P cfg s op).1 A' ∧
       (istep P cfg s op).2 = (ispec P (live A) op).2 ∧
       live A' = (ispec P (live A) op).1 ∧
-      (fileOf (istep P cfg s op).1.ar).length = (fileOf s.ar).length + icost op := by
+      (fileOf (istep P cfg s op).1.ar).length = (fileOf s.ar).length + icost op ∧
+      (inz P op → Extra s.ix → Synced s.ix →
+        Extra (istep P cfg s op).1.ix ∧ Synced (istep P cfg s op).1.ix) := by
   have hlk : ∀ k, Lsm.lookup s.ix k = locs A k := fun k => by
     rw [lookup_eq_absS _ inv.rel.1 k, inv.rel.2 k]
   cases op with
@@ -485,22 +502,22 @@ theorem istep_refines (P : Archive.Params) (cfg : Lsm.Cfg) (hcap : 1 ≤ cfg.cap
       have ho : o = .ok := hout
       subst ho
       have hstep : istep P cfg s (.write d c) =
-          ({ s with ar := ar', ix := ix' }, .key (P.H d)) := by
-        simp only [istep, ite_self, hwr, keyOf] at hst ⊢
+          ({ s with ar := ar', ix := Lsm.saveAll ix' }, .key (P.H d)) := by
+        simp only [istep, istepWith, ite_self, hwr, keyOf, if_true] at hst ⊢
         rw [hst]
       rw [hstep]
       let e : Entry := ⟨keyOf P d, 0, (fileOf s.ar).length, Archive.headerSize + (blteN d).length⟩
       have hfile : fileOf ar' = fileOf s.ar ++
           (P.hdr (P.H (blteN d)) (blteN d).length (fileOf s.ar).length ++ blteN d) := by
         simp only [fileOf, hdisk, Option.getD_some]
-      refine ⟨Abs.set A (keyOf P d) (some (e, d)), ⟨?_, hok, ?_, ?_⟩, rfl, ?_, ?_⟩
+      refine ⟨Abs.set A (keyOf P d) (some (e, d)), ⟨?_, hok, ?_, ?_⟩, rfl, ?_, ?_, ?_⟩
       · have : locs (Abs.set A (keyOf P d) (some (e, d))) =
             Cascette.Spec.IndexMap.Map.set (locs A) (keyOf P d) (some e) := by
           funext k'
           simp only [locs, Abs.set, Cascette.Spec.IndexMap.Map.set]
           split <;> rfl
         rw [this]
-        exact hrel
+        exact relMem_saveAll hrel
       · intro k' e' d' hA
         simp only [Abs.set] at hA
         show e'.id = 0 ∧ Stored P.cd (fileOf ar') e'.off e'.size d' ∧ _
@@ -530,6 +547,15 @@ theorem istep_refines (P : Archive.Params) (cfg : Lsm.Cfg) (hcap : 1 ≤ cfg.cap
         rw [hfile, List.length_append, List.length_append, hl', hlen]
         simp only [icost]
         omega
+      · intro hk0 hx _
+        have hwf : opWF (Cascette.Spec.IndexMap.Op.add (keyOf P d) 0 (fileOf s.ar).length
+            (Archive.headerSize + (blteN d).length)) := by
+          refine ⟨hk0, by omega, ?_⟩
+          simp only [Archive.headerSize] at hsz; omega
+        have hx1 := step_extra cfg s.ix _ (by trivial) hwf inv.rel.1 hx
+        rw [hst] at hx1
+        have hx2 := step_extra cfg ix' .saveAll (by trivial) (by trivial) hrel.1 hx1
+        exact ⟨hx2, synced_saveAll ix' hx1.no⟩
   | read key =>
     cases hc : s.cache.find? (fun p => p.1 == key) with
     | some p =>
@@ -539,41 +565,46 @@ theorem istep_refines (P : Archive.Params) (cfg : Lsm.Cfg) (hcap : 1 ≤ cfg.cap
         simpa using this
       obtain ⟨e, he⟩ := inv.cache p hp
       rw [hk] at he
-      refine ⟨A, ?_, ?_, ?_, ?_⟩
-      · simp only [istep, hc]; exact inv
-      · simp only [istep, hc, ispec, live, he, Option.map_some]
+      refine ⟨A, ?_, ?_, ?_, ?_, ?_⟩
+      · simp only [istep, istepWith, hc]; exact inv
+      · simp only [istep, istepWith, hc, ispec, live, he, Option.map_some]
       · simp only [ispec, live, he, Option.map_some]
-      · simp only [istep, hc, icost, Nat.add_zero]
+      · simp only [istep, istepWith, hc, icost, Nat.add_zero]
+      · simp only [istep, istepWith, hc]; exact fun _ hx hsy => ⟨hx, hsy⟩
     | none =>
       have hl := hlk (key9 key)
       cases hA : A (key9 key) with
       | none =>
         have : Lsm.lookup s.ix (key9 key) = none := by rw [hl]; simp only [locs, hA, Option.map_none]
-        refine ⟨A, ?_, ?_, ?_, ?_⟩
-        · simp only [istep, hc, this]; exact inv
-        · simp only [istep, hc, this, ispec, live, hA, Option.map_none]
+        refine ⟨A, ?_, ?_, ?_, ?_, ?_⟩
+        · simp only [istep, istepWith, hc, this]; exact inv
+        · simp only [istep, istepWith, hc, this, ispec, live, hA, Option.map_none]
         · simp only [ispec, live, hA, Option.map_none]
-        · simp only [istep, hc, this, icost, Nat.add_zero]
+        · simp only [istep, istepWith, hc, this, icost, Nat.add_zero]
+        · simp only [istep, istepWith, hc, this]; exact fun _ hx hsy => ⟨hx, hsy⟩
       | some q =>
         obtain ⟨e, d⟩ := q
         have : Lsm.lookup s.ix (key9 key) = some e := by rw [hl]; simp only [locs, hA, Option.map_some]
         obtain ⟨h1, h2, _, _⟩ := inv.ent _ e d hA
         have hrd := read_live' (P := P) inv.arch e d h1 h2
-        refine ⟨A, ?_, ?_, ?_, ?_⟩
-        · simp only [istep, hc, this, hrd]
+        refine ⟨A, ?_, ?_, ?_, ?_, ?_⟩
+        · simp only [istep, istepWith, hc, this, hrd]
           refine ⟨inv.rel, inv.arch, inv.ent, ?_⟩
           intro p hp
           simp only [List.mem_cons] at hp
           rcases hp with rfl | hp
           · exact ⟨e, hA⟩
           · exact inv.cache p hp
-        · simp only [istep, hc, this, hrd, ispec, live, hA, Option.map_some]
+        · simp only [istep, istepWith, hc, this, hrd, ispec, live, hA, Option.map_some]
         · simp only [ispec, live, hA, Option.map_some]
-        · simp only [istep, hc, this, hrd, icost, Nat.add_zero]
+        · simp only [istep, istepWith, hc, this, hrd, icost, Nat.add_zero]
+        · simp only [istep, istepWith, hc, this, hrd]; exact fun _ hx hsy => ⟨hx, hsy⟩
   | has key =>
-    refine ⟨A, inv, ?_, rfl, rfl⟩
-    simp only [istep, hlk, ispec, locs, live, Option.isSome_map]
+    refine ⟨A, inv, ?_, rfl, rfl, fun _ hx hsy => ⟨hx, hsy⟩⟩
+    simp only [istep, istepWith, hlk, ispec, locs, live, Option.isSome_map]
   | reopen => exact absurd hnr (by simp [notReopen])
+  | openOnly => exact absurd hnr (by simp [notReopen])
+  | init => exact absurd hnr (by simp [notReopen])
 
 theorem irun_refines (P : Archive.Params) (cfg : Lsm.Cfg) (hcap : 1 ≤ cfg.capPages)
     (hr : RemapsOnChange P) (hh : HdrLen P) (S : Bytes → Prop) (hS : NoColl P S) :
@@ -587,9 +618,276 @@ theorem irun_refines (P : Archive.Params) (cfg : Lsm.Cfg) (hcap : 1 ≤ cfg.capP
     intro s A inv hops hb
     simp only [ibudget] at hb
     obtain ⟨h1, h2⟩ := hops op List.mem_cons_self
-    obtain ⟨A1, inv1, ho1, hl1, hf1⟩ := istep_refines P cfg hcap hr hh S hS s A inv op h1 h2 (by omega)
+    obtain ⟨A1, inv1, ho1, hl1, hf1, _⟩ := istep_refines P cfg hcap hr hh S hS s A inv op h1 h2 (by omega)
     have := ih (istep P cfg s op).1 A1 inv1 (fun o h => hops o (List.mem_cons_of_mem _ h))
       (by rw [hf1]; omega)
     simp only [irun, ispecRun, ho1, this, hl1]
+
+/-! ### Installation, histories WITH close + reopen (after `fix:` 947b84f) -/
+
+/-- with every file current, `initialize()` on a live instance (`load_all` replaces every bucket
+that has a file by what the file holds) changes nothing. -/
+theorem loadAll_synced (s : Lsm.State) (hg : Good s) (hw : WFS s) (h : Synced s) : loadAll s = s := by
+  cases s with
+  | mk mem disk =>
+    unfold loadAll
+    simp only
+    congr 1
+    funext b
+    have hb := h b
+    simp only at hb
+    rw [hb]
+    cases hm : mem b with
+    | none => rfl
+    | some bk =>
+      simp only [Option.map_some]
+      rw [load_save bk (hg b bk hm).sorted (hw b bk hm)]
+
+/-- drop + `Installation::open` + `initialize()` in two steps is the one-step `reopen`. -/
+theorem open_then_initialize_eq_reopen (P : Archive.Params) (cfg : Lsm.Cfg) (s : IState) :
+    (istep P cfg (istep P cfg s .openOnly).1 .init).1 = (istep P cfg s .reopen).1 := by
+  simp only [istep, istepWith, Archive.reopen, Archive.dropOpen, loadAll, Lsm.reload]
+  congr 2
+  funext b
+  cases s.ix.disk b <;> rfl
+
+/-- the invariant of the installation whose `write_file` saves the index: the one above, and
+every index file is current (`Synced`) with the C05 durability side conditions (`Extra`). -/
+structure IInvD (P : Archive.Params) (S : Bytes → Prop) (s : IState) (A : Abs) : Prop where
+  base : IInv P S s A
+  extra : Extra s.ix
+  synced : Synced s.ix
+
+theorem iinvd_init (P : Archive.Params) (S : Bytes → Prop) : IInvD P S IState.init (fun _ => none) :=
+  ⟨iinv_init P S, Cascette.Proofs.Lsm.extra_init, fun _ => rfl⟩
+
+theorem istep_refines_d (P : Archive.Params) (cfg : Lsm.Cfg) (hcap : 1 ≤ cfg.capPages)
+    (hr : RemapsOnChange P) (hh : HdrLen P) (S : Bytes → Prop) (hS : NoColl P S)
+    (s : IState) (A : Abs) (inv : IInvD P S s A) (op : IOp) (hno : notOpenOnly op)
+    (hnz : inz P op) (hw : writesIn S op) (hsz : (fileOf s.ar).length + icost op < 2 ^ 30) :
+    ∃ A', IInvD P S (istep P cfg s op).1 A' ∧
+      (istep P cfg s op).2 = (ispec P (live A) op).2 ∧
+      live A' = (ispec P (live A) op).1 ∧
+      (fileOf (istep P cfg s op).1.ar).length = (fileOf s.ar).length + icost op := by
+  have same : ∀ op', notReopen op' → inz P op' → writesIn S op' →
+      (fileOf s.ar).length + icost op' < 2 ^ 30 →
+      ∃ A', IInvD P S (istep P cfg s op').1 A' ∧
+        (istep P cfg s op').2 = (ispec P (live A) op').2 ∧
+        live A' = (ispec P (live A) op').1 ∧
+        (fileOf (istep P cfg s op').1.ar).length = (fileOf s.ar).length + icost op' := by
+    intro op' h1 h2 h3 h4
+    obtain ⟨A', i', o1, o2, o3, o4⟩ := istep_refines P cfg hcap hr hh S hS s A inv.base op' h1 h3 h4
+    obtain ⟨hx, hsy⟩ := o4 h2 inv.extra inv.synced
+    exact ⟨A', ⟨i', hx, hsy⟩, o1, o2, o3⟩
+  cases op with
+  | write d c => exact same _ trivial hnz hw hsz
+  | read key => exact same _ trivial hnz hw hsz
+  | has key => exact same _ trivial hnz hw hsz
+  | reopen =>
+    have h1 := reopen_archOk s.ar inv.base.arch
+    have h2 := reload_synced s.ix inv.base.rel.1 inv.extra.wf inv.synced
+    have hstep : istep P cfg s .reopen = (⟨s.ar, s.ix, []⟩, .ok) := by
+      simp only [istep, istepWith, h1, h2]
+    rw [hstep]
+    exact ⟨A, ⟨⟨inv.base.rel, inv.base.arch, inv.base.ent, by intro p hp; cases hp⟩, inv.extra,
+      inv.synced⟩, rfl, rfl, rfl⟩
+  | openOnly => exact absurd hno (by simp [notOpenOnly])
+  | init =>
+    have h1 := reopen_archOk s.ar inv.base.arch
+    have h2 := loadAll_synced s.ix inv.base.rel.1 inv.extra.wf inv.synced
+    have hstep : istep P cfg s .init = (s, .ok) := by
+      simp only [istep, istepWith, h1, h2]
+    rw [hstep]
+    exact ⟨A, inv, rfl, rfl, rfl⟩
+
+theorem irun_refines_d (P : Archive.Params) (cfg : Lsm.Cfg) (hcap : 1 ≤ cfg.capPages)
+    (hr : RemapsOnChange P) (hh : HdrLen P) (S : Bytes → Prop) (hS : NoColl P S) :
+    ∀ (ops : List IOp) (s : IState) (A : Abs), IInvD P S s A →
+      (∀ op ∈ ops, notOpenOnly op ∧ inz P op ∧ writesIn S op) →
+      (fileOf s.ar).length + ibudget ops < 2 ^ 30 →
+      (irun P cfg s ops).2 = (ispecRun P (live A) ops).2 := by
+  intro ops
+  induction ops with
+  | nil => intro s A _ _ _; rfl
+  | cons op ops ih =>
+    intro s A inv hops hb
+    simp only [ibudget] at hb
+    obtain ⟨h1, h2, h3⟩ := hops op List.mem_cons_self
+    obtain ⟨A1, inv1, ho1, hl1, hf1⟩ :=
+      istep_refines_d P cfg hcap hr hh S hS s A inv op h1 h2 h3 (by omega)
+    have := ih (istep P cfg s op).1 A1 inv1 (fun o h => hops o (List.mem_cons_of_mem _ h))
+      (by rw [hf1]; omega)
+    simp only [irun, ispecRun, ho1, this, hl1]
+
+/-! ### Installation: the data file under ANY mix of sessions, initialized or not -/
+
+theorem irun_append (P : Archive.Params) (cfg : Lsm.Cfg) (s : IState) (a b : List IOp) :
+    irun P cfg s (a ++ b) =
+      ((irun P cfg (irun P cfg s a).1 b).1, (irun P cfg s a).2 ++ (irun P cfg (irun P cfg s a).1 b).2) := by
+  induction a generalizing s with
+  | nil => rfl
+  | cons op a ih => simp only [List.cons_append, irun, ih]
+
+/-- the archive half of `write_file` does not depend on what the index does. -/
+theorem istep_write_ar (P : Archive.Params) (cfg : Lsm.Cfg) (s : IState) (d : Bytes) (c : Bool) :
+    (istep P cfg s (.write d c)).1.ar = (Archive.write P s.ar d .none).1 := by
+  simp only [istep, istepWith, ite_self]
+  split
+  · rename_i h; rw [h]
+  · rename_i h; rw [h]
+    split <;> rfl
+
+/-- a read never touches the archive state. -/
+theorem istep_read_ar (P : Archive.Params) (cfg : Lsm.Cfg) (s : IState) (key : Bytes) :
+    (istep P cfg s (.read key)).1.ar = s.ar := by
+  simp only [istep, istepWith]
+  split
+  · rfl
+  · split
+    · rfl
+    · split <;> rfl
+
+/-- **one step, any operation** (also `openOnly` and a write on the un-initialized instance):
+with `create_archive` as it is now, the archive is afterwards not open or open on the whole file,
+every stored entry is still stored where it was, and a write stores its entry at the old end of
+the file. -/
+theorem istep_keeps_stored (P : Archive.Params) (cfg : Lsm.Cfg) (hk : P.keepOnCreate = true)
+    (hr : RemapsOnChange P) (hh : HdrLen P) (s : IState) (ha : ArchOk' s.ar) (op : IOp)
+    (hsz : (fileOf s.ar).length + icost op < 2 ^ 32) :
+    ArchOk' (istep P cfg s op).1.ar ∧
+      (∀ off size d, Stored P.cd (fileOf s.ar) off size d →
+        Stored P.cd (fileOf (istep P cfg s op).1.ar) off size d) ∧
+      (fileOf (istep P cfg s op).1.ar).length = (fileOf s.ar).length + icost op ∧
+      (∀ d c, op = .write d c → Stored P.cd (fileOf (istep P cfg s op).1.ar) (fileOf s.ar).length
+        (Archive.headerSize + 9 + d.length) d) := by
+  cases op with
+  | write d c =>
+    have hb := blteOf_none P.cd d
+    have hlen := blteN_length d
+    simp only [icost] at hsz
+    obtain ⟨ar', hw, hdisk, hok⟩ := write_append P hk hr hh s.ar ha d .none (blteN d) hb
+      (by rw [hlen]; simp only [Archive.headerSize] at hsz ⊢; omega)
+    have har : (istep P cfg s (.write d c)).1.ar = ar' := by rw [istep_write_ar, hw]
+    have hfile : fileOf ar' = fileOf s.ar ++
+        (P.hdr (P.H (blteN d)) (blteN d).length (fileOf s.ar).length ++ blteN d) := by
+      simp only [fileOf, hdisk, Option.getD_some]
+    rw [har]
+    refine ⟨Or.inr hok, ?_, ?_, ?_⟩
+    · intro off size d' h; rw [hfile]; exact stored_append _ h
+    · have hl' := hh (P.H (blteN d)) (blteN d).length (fileOf s.ar).length
+      rw [hfile, List.length_append, List.length_append, hl', hlen]
+      simp only [icost]
+      omega
+    · intro d2 c2 he
+      simp only [IOp.write.injEq] at he
+      obtain ⟨rfl, _⟩ := he
+      rw [hfile]
+      have := stored_new (cd := P.cd) (fileOf s.ar) (P.hdr (P.H (blteN d)) (blteN d).length (fileOf s.ar).length)
+        (blteN d) d (hh _ _ _) (goodBlte_blteN P.cd d)
+      have e : Archive.headerSize + (blteN d).length = Archive.headerSize + 9 + d.length := by
+        rw [hlen]; omega
+      rw [e] at this
+      exact this
+  | read key =>
+    rw [istep_read_ar]
+    exact ⟨ha, fun _ _ _ h => h, rfl, by intro d c h; cases h⟩
+  | has key => exact ⟨ha, fun _ _ _ h => h, rfl, by intro d c h; cases h⟩
+  | reopen => exact ⟨Or.inr (reopen_ok s.ar), fun _ _ _ h => h, rfl, by intro d c h; cases h⟩
+  | openOnly => exact ⟨Or.inl rfl, fun _ _ _ h => h, rfl, by intro d c h; cases h⟩
+  | init => exact ⟨Or.inr (reopen_ok s.ar), fun _ _ _ h => h, rfl, by intro d c h; cases h⟩
+
+theorem irun_keeps_stored (P : Archive.Params) (cfg : Lsm.Cfg) (hk : P.keepOnCreate = true)
+    (hr : RemapsOnChange P) (hh : HdrLen P) : ∀ (ops : List IOp) (s : IState), ArchOk' s.ar →
+    (fileOf s.ar).length + ibudget ops < 2 ^ 32 →
+    ArchOk' (irun P cfg s ops).1.ar ∧
+      (∀ off size d, Stored P.cd (fileOf s.ar) off size d →
+        Stored P.cd (fileOf (irun P cfg s ops).1.ar) off size d) ∧
+      (fileOf (irun P cfg s ops).1.ar).length = (fileOf s.ar).length + ibudget ops := by
+  intro ops
+  induction ops with
+  | nil => intro s ha _; exact ⟨ha, fun _ _ _ h => h, rfl⟩
+  | cons op ops ih =>
+    intro s ha hb
+    simp only [ibudget] at hb
+    obtain ⟨h1, h2, h3, _⟩ := istep_keeps_stored P cfg hk hr hh s ha op (by omega)
+    obtain ⟨g1, g2, g3⟩ := ih (istep P cfg s op).1 h1 (by rw [h3]; omega)
+    refine ⟨g1, fun off size d h => g2 off size d (h2 off size d h), ?_⟩
+    show (fileOf (irun P cfg (istep P cfg s op).1 ops).1.ar).length = _
+    rw [g3, h3]; simp only [ibudget]; omega
+
+theorem ibudget_append (a b : List IOp) : ibudget (a ++ b) = ibudget a + ibudget b := by
+  induction a with
+  | nil => simp [ibudget]
+  | cons op a ih => simp only [List.cons_append, ibudget, ih]; omega
+
+/-! ### beyond 1 GiB: the offset an `.idx` record can hold -/
+
+/-- what the 5-byte location field of an `.idx` record keeps of ANY archive id and offset: the
+low 10 and the low 30 bits. -/
+theorem unpack_pack_any (id off : Nat) :
+    Lsm.unpackLoc (Lsm.packLoc id off) = some (id % 1024, off % 2 ^ 30) := by
+  unfold Lsm.packLoc Lsm.unpackLoc
+  simp only [Option.some.injEq, Prod.mk.injEq]
+  constructor <;> omega
+
+theorem fresh_add (cfg : Lsm.Cfg) (hcap : 1 ≤ cfg.capPages) (k off size : Nat) :
+    Lsm.step cfg Lsm.State.init (.add k 0 off size) =
+      (Lsm.State.init.setMem (IndexMap.bucketOf k) ⟨[], [[⟨k, 0, off, size, 0⟩]]⟩, .ok) := by
+  simp only [Lsm.step, Lsm.ensureBucket, Lsm.State.init, Lsm.appendWithFlush, Lsm.State.setMem, if_true,
+    Lsm.appendPages, Lsm.Bucket.empty, List.getLast?_nil, List.length_nil]
+  rw [if_neg (by omega)]
+  simp only [List.nil_append, Prod.mk.injEq, Lsm.State.mk.injEq, and_true]
+  funext i
+  by_cases h : i = IndexMap.bucketOf k <;> simp [h]
+
+/-- a fresh index: add an entry with ANY offset, `save_all`, restart, look the key up — the
+offset comes back reduced modulo 2^30. -/
+theorem fresh_add_save_reload_lookup (cfg : Lsm.Cfg) (hcap : 1 ≤ cfg.capPages) (k off size : Nat) :
+    Lsm.lookup (Lsm.reload (Lsm.saveAll (Lsm.step cfg Lsm.State.init (.add k 0 off size)).1)) k =
+      some ⟨k, 0, off % 2 ^ 30, size⟩ := by
+  rw [fresh_add cfg hcap]
+  simp only [Lsm.lookup, Lsm.reload, Lsm.saveAll, Lsm.State.setMem, Lsm.State.init, if_true, Option.map_some,
+    Lsm.loadB, Lsm.saveB, List.filterMap_nil, List.map_cons, List.map_nil, Lsm.sortByKey, Lsm.searchBoth,
+    Lsm.searchLog, List.reverse_cons, List.reverse_nil, List.nil_append, Lsm.searchPages, Lsm.searchPage,
+    Lsm.packUpd, unpack_pack_any]
+  simp [Lsm.Upd.toEntry, IndexMap.stDelete]
+
+/-- a container opened on a directory that holds `data.000 = file` and no index file. -/
+def onFile (file : Bytes) : State := ⟨⟨some file, some ⟨file.length, file.length⟩⟩, Lsm.State.init, []⟩
+
+theorem dyn_write_reopen_lookup (P : Archive.Params) (cfg : Lsm.Cfg) (hcap : 1 ≤ cfg.capPages)
+    (hr : RemapsOnChange P) (hh : HdrLen P) (file d : Bytes)
+    (hsz : file.length + (Archive.headerSize + 9 + d.length) < 2 ^ 32) :
+    (run P cfg (onFile file) [.write d, .reopen]).2 = [.ok, .ok] ∧
+      Lsm.lookup (run P cfg (onFile file) [.write d, .reopen]).1.ix (keyOf P d) =
+        some ⟨keyOf P d, 0, file.length % 2 ^ 30, Archive.headerSize + 9 + d.length⟩ ∧
+      (fileOf (run P cfg (onFile file) [.write d, .reopen]).1.ar) =
+        file ++ (P.hdr (P.H (blteN d)) (blteN d).length file.length ++ blteN d) := by
+  have hb := blteOf_none P.cd d
+  have hlen := blteN_length d
+  have hok0 : ArchOk (onFile file).ar := rfl
+  obtain ⟨ar', hw, hdisk, hok⟩ := write_spec32 P hr hh (onFile file).ar hok0 d .none (blteN d) hb
+    (by rw [hlen]; simp only [Archive.headerSize, onFile, fileOf, Option.getD_some] at hsz ⊢; omega)
+  have hf : fileOf (onFile file).ar = file := rfl
+  rw [hf] at hw hdisk
+  have hst := fresh_add cfg hcap (keyOf P d) file.length (Archive.headerSize + (blteN d).length)
+  have hstep : step P cfg (onFile file) (.write d) =
+      ({ (onFile file) with ar := ar', ix := Lsm.saveAll (Lsm.State.init.setMem (IndexMap.bucketOf (keyOf P d))
+        ⟨[], [[⟨keyOf P d, 0, file.length, Archive.headerSize + (blteN d).length, 0⟩]]⟩) }, .ok) := by
+    have hw' : Archive.write P ⟨some file, some ⟨file.length, file.length⟩⟩ d .none = _ := hw
+    simp only [step, onFile, hw']
+    simp only [keyOf] at hst
+    rw [hst]
+    rfl
+  have hfresh := fresh_add_save_reload_lookup cfg hcap (keyOf P d) file.length
+    (Archive.headerSize + (blteN d).length)
+  rw [hst] at hfresh
+  have e : Archive.headerSize + (blteN d).length = Archive.headerSize + 9 + d.length := by rw [hlen]; omega
+  simp only [run]
+  rw [hstep]
+  simp only [step]
+  refine ⟨trivial, ?_, ?_⟩
+  · rw [← e]; exact hfresh
+  · simp only [Archive.reopen, fileOf, hdisk, Option.getD_some]
 
 end Cascette.Proofs.Container
